@@ -56,15 +56,21 @@ type wiringResult struct {
 	StatusPolls  int       `json:"status_polls"`
 	AtIndex      int       `json:"at_index"`
 	AtBs         int       `json:"at_bs"`
+	AtBackup     int       `json:"at_backup"`
 	Findings     []finding `json:"findings,omitempty"`
 	Inconclusive string    `json:"inconclusive,omitempty"`
 }
 
 func wiringConfigs(thorough bool) []string {
+	// "+backup": the generated low-level configuration is extended, the way genconfig does for an
+	// S3 / B2 / GCS replica ("/sync-to-<vendor>/"), by a second storage "/backup/" and a second sync
+	// handler from /bs/ to it.  Unlike the index, /backup/ gets nothing synchronously: a blob reaches
+	// it only if /bs/ announced it to its hub — also when /bs/ received it as a backend of the
+	// /bs-and-index/ replica (schema blobs).
 	if thorough {
-		return []string{"memory+memory", "localdisk+leveldb", "localdisk+kv", "localdisk+sqlite"}
+		return []string{"memory+memory", "localdisk+leveldb", "localdisk+kv", "localdisk+sqlite", "memory+memory+backup", "localdisk+leveldb+backup"}
 	}
-	return []string{"memory+memory", "localdisk+leveldb"}
+	return []string{"memory+memory", "localdisk+leveldb", "memory+memory+backup"}
 }
 
 // runWiring (parent side) runs one child per configuration.
@@ -75,6 +81,10 @@ func runWiring(r *ev.Run, cfg string) (res *wiringResult, inconclusive string) {
 		return nil, "server child " + cfg + " did not finish within the watchdog; perkeep frames: " + ev.PerkeepFrames(out)
 	}
 	lines := strings.Split(strings.TrimSpace(out), "\n")
+	if fr := ev.PerkeepFrames(out); code != 0 && fr != "" && strings.Contains(out, "panic") {
+		// (the child's deferred result line is printed on the way out of a panic too)
+		return &wiringResult{Config: cfg, Findings: []finding{{Sig: "panic/server-wiring", What: "the server child died: " + fr}}}, ""
+	}
 	for i := len(lines) - 1; i >= 0; i-- {
 		if strings.HasPrefix(lines[i], "C19WIRING ") {
 			var wr wiringResult
@@ -83,9 +93,6 @@ func runWiring(r *ev.Run, cfg string) (res *wiringResult, inconclusive string) {
 			}
 			return &wr, ""
 		}
-	}
-	if fr := ev.PerkeepFrames(out); code != 0 && fr != "" && strings.Contains(out, "panic") {
-		return &wiringResult{Config: cfg, Findings: []finding{{Sig: "panic/server-wiring", What: "the server child died: " + fr}}}, ""
 	}
 	tailN := lines
 	if len(tailN) > 6 {
@@ -149,11 +156,20 @@ func wiringChildMain() {
 	}
 	res.BlobRoot = disc.BlobRoot
 	toIndex := false
+	wantBackup := strings.HasSuffix(cfg, "+backup")
+	toBackup := false
 	for _, s := range disc.SyncHandlers {
 		res.SyncHandlers = append(res.SyncHandlers, s.From+"->"+s.To)
 		if s.ToIndex && s.From == "/bs/" {
 			toIndex = true
 		}
+		if s.From == "/bs/" && s.To == "/backup/" {
+			toBackup = true
+		}
+	}
+	if wantBackup && !toBackup {
+		res.Inconclusive = fmt.Sprintf("discovery lists no sync handler from /bs/ to /backup/: %.300s", body)
+		return
 	}
 	if !toIndex {
 		res.Inconclusive = fmt.Sprintf("discovery lists no sync handler from /bs/ to the index: %.300s", body)
@@ -275,10 +291,26 @@ func wiringChildMain() {
 		res.Inconclusive = err.Error()
 		return
 	}
+	var atBackup map[string]int64
+	if wantBackup {
+		if atBackup, err = stat("/backup/"); err != nil {
+			res.Inconclusive = err.Error()
+			return
+		}
+	}
 	for _, b := range acked {
 		kind := "non-schema"
 		if schema[b.Ref.String()] {
 			kind = "schema"
+		}
+		if wantBackup {
+			if sz, ok := atBackup[b.Ref.String()]; !ok || sz != int64(len(b.Data)) {
+				res.Findings = append(res.Findings, finding{Sig: "not-delivered/server-wiring-second-sync/" + kind,
+					What: fmt.Sprintf("[%s] %s blob %s (%d B) was acknowledged at %s and every sync handler reports nothing left to copy, but the destination /backup/ of the second sync handler from /bs/ stats it as present=%v size=%d (at /bs/: %v)",
+						cfg, kind, b.Ref, len(b.Data), root, ok, sz, atBs[b.Ref.String()] == int64(len(b.Data)))})
+			} else {
+				res.AtBackup++
+			}
 		}
 		if sz, ok := atBs[b.Ref.String()]; !ok || sz != int64(len(b.Data)) {
 			res.Findings = append(res.Findings, finding{Sig: "not-stored/server-wiring/" + kind,
@@ -299,7 +331,8 @@ func seededRand(seed int64) *rand.Rand { return rand.New(rand.NewSource(seed)) }
 
 // wiringServer builds the handlers of a high-level configuration exactly as perkeepd does.
 func wiringServer(cfg, dir string) (*http.ServeMux, error) {
-	storage, index, ok := strings.Cut(cfg, "+")
+	backup := strings.HasSuffix(cfg, "+backup")
+	storage, index, ok := strings.Cut(strings.TrimSuffix(cfg, "+backup"), "+")
 	if !ok {
 		return nil, fmt.Errorf("bad configuration %q", cfg)
 	}
@@ -356,9 +389,61 @@ func wiringServer(cfg, dir string) (*http.ServeMux, error) {
 	if err != nil {
 		return nil, fmt.Errorf("serverinit.Load: %w", err)
 	}
+	if backup {
+		// extend the generated low-level configuration and load that
+		ljs, err := json.Marshal(conf.LowLevelJSONConfig())
+		if err != nil {
+			return nil, fmt.Errorf("low-level configuration: %w", err)
+		}
+		var low map[string]any
+		if err := json.Unmarshal(ljs, &low); err != nil {
+			return nil, fmt.Errorf("low-level configuration: %w", err)
+		}
+		stripPrivate(low) // jsonconfig's bookkeeping ("_knownkeys") is not configuration
+		prefixes, ok := low["prefixes"].(map[string]any)
+		if !ok {
+			return nil, fmt.Errorf("low-level configuration has no prefixes: %.200s", ljs)
+		}
+		queue := map[string]any{"type": "memory"}
+		if storage == "memory" {
+			prefixes["/backup/"] = map[string]any{"handler": "storage-memory"}
+		} else {
+			bdir := filepath.Join(dir, "backup")
+			if err := os.MkdirAll(bdir, 0o700); err != nil {
+				return nil, err
+			}
+			prefixes["/backup/"] = map[string]any{"handler": "storage-filesystem", "handlerArgs": map[string]any{"path": bdir}}
+			queue = map[string]any{"type": index, "file": filepath.Join(blobPath, "sync-to-backup-queue."+index)}
+		}
+		prefixes["/sync-to-backup/"] = map[string]any{"handler": "sync", "handlerArgs": map[string]any{
+			"from": "/bs/", "to": "/backup/", "queue": queue,
+		}}
+		ljs, _ = json.Marshal(low)
+		if conf, err = serverinit.Load(ljs); err != nil {
+			return nil, fmt.Errorf("serverinit.Load of the extended low-level configuration: %w", err)
+		}
+	}
 	mux := http.NewServeMux()
 	if _, err := conf.InstallHandlers(mux, "http://c19.example"); err != nil {
 		return nil, fmt.Errorf("InstallHandlers: %w", err)
 	}
 	return mux, nil
+}
+
+// stripPrivate removes, recursively, the keys jsonconfig adds to an Obj for its own bookkeeping.
+func stripPrivate(v any) {
+	switch x := v.(type) {
+	case map[string]any:
+		for k, e := range x {
+			if strings.HasPrefix(k, "_") {
+				delete(x, k)
+				continue
+			}
+			stripPrivate(e)
+		}
+	case []any:
+		for _, e := range x {
+			stripPrivate(e)
+		}
+	}
 }
